@@ -71,6 +71,9 @@ class Gen(object):
             c = self.objs[key]
         elif k == 'arr':
             c = Array(self.cls(t['of']))
+        elif k == 'any':
+            from spyne import AnyXml
+            c = AnyXml
         elif k == 'attr':
             c = XmlAttribute(self.cls(t['of']), use=t['use']) if t.get('use') else XmlAttribute(self.cls(t['of']))
         else:
